@@ -18,7 +18,9 @@ def check(ctx):
     # makes advance_to refuse to move
     # (C11.b: the loop of peek_n has the same variant as next_match's — a failed attempt consumes one char of the private cursor
     # or ends the loop; "all sequences of iterator calls" includes peeks, and a peek that does not return is no progress)
-    cursor.analyze(ctx, RULES | {"C09.a", "C10.b", "C10.a", "C01.e", "C11.b"})   # C01.e: reported span = attempt span shifted once by the offset (non-empty, in bounds)
+    # (C11.a: an attempt writes nothing a later call reads — a result remembered across calls is replayed at a position it was
+    # not computed for, and its span need not fit the text there)
+    cursor.analyze(ctx, RULES | {"C09.a", "C10.b", "C10.a", "C01.e", "C11.b", "C11.a"})   # C01.e: reported span = attempt span shifted once by the offset (non-empty, in bounds)
     from . import panics
     panics.analyze(ctx, {"C07.d", "C07.e"})
     from .common import cache_foundation, language_foundation
